@@ -1,11 +1,15 @@
 SPECIFICATION Spec
 CONSTANTS
-  Args <- ScalarArgsSmall
+  Args <- ScalarArgs
   CanonOf <- ScalarCanonAll
   PyOf <- ScalarPy
-  KeyMode = "pyeq"
+  KeyMode = "exact"
   MaxOps = 4
   MaxPickles = 1
   Label = "scalar"
+INVARIANT UniqueLive
+INVARIANT ExactArgs
+INVARIANT SameWhileAlive
+INVARIANT TableSound
 CONSTRAINT EmitBehaviour
 CHECK_DEADLOCK FALSE
